@@ -25,7 +25,7 @@ RULE = ("(template, substrate, direction, strategy, hydrogen mode) with template
         "hand-made rule, or a synthetic ITS graph planted on a random host; non-trivial = at least one glued result and a "
         "template with >= 2 changed bonds; distinct = distinct (template, substrate, configuration)")
 EXHAUSTIVE = {"quick": False, "thorough": False}
-EXPLANATION = ("26 theorems (coq/props/C03.v) about the Gallina model of SynReactor._glue_graph/_node_glue, _invert_template, _explicit_h, "
+EXPLANATION = ("31 theorems (coq/props/C03.v) about the Gallina model of SynReactor._glue_graph/_node_glue, _invert_template, _explicit_h, "
                "h_to_explicit and SynRule.__init__ (implicit-template mode; default mode for templates without explicit H atoms): for every host, rule and valid match the reactant side of the glued ITS "
                "(on its_decompose, what _to_smarts serialises) is the substrate; element counts incl. hydrogen and total charge agree on both "
                "sides for a balanced rule (and differ by exactly the rule's imbalance otherwise); changed bonds = image of the rule's bonds with "
@@ -48,7 +48,9 @@ TRUSTED_BASE = [
 ]
 ASSUMPTIONS = ["templates have typesGH 5-tuples on every node, no wildcard '*' atoms (partial-matching engine is outside C03)",
                "bond orders are multiples of 0.5", "node ids are non-negative ints",
-               "hydrogen mode matches how the template is written (default/explicit_h=False modes need hydrogen changes written with explicit H atoms)",
+               "hydrogen mode matches how the template is written (default/explicit_h=False modes need hydrogen changes written with explicit H atoms; "
+               "the docstring asks for implicit_temp=True otherwise). The reactor does not enforce it: known finding implicit-template-in-explicit-mode "
+               "(keyed regress witnesses are judged; other inputs of the class are skipped by the oracle)",
                "theorem hypotheses wf_hostb / wf_rcb / match_rcb (distinct node ids, one edge entry per unordered pair, no loops, host orders > 0, "
                "rule orders >= 0; the match is injective, total on the rule's atoms, element/charge equal, host hcount >= rule hcount, reactant-side "
                "orders equal) — true on every correspondence case (recomputed by the model, compared with constant 1)"]
@@ -62,9 +64,10 @@ TESTED_NOT_PROVED = ["serialisation half: _to_smarts / graph_to_smi (RDKit) — 
                      "explicit H (C03_synrule_default_noH)",
                      "re-matching of the explicit-hydrogen pattern (_get_explicit_map -> VF2): every re-match is checked by match_okb / match_rcb in the "
                      "correspondence, not proved valid or complete (premise of C03_explicit_path)",
-                     "_explicit_h: which template hydrogen each new H atom stands for (first-fit pairing inside an h_pairs component) — only the counts, "
-                     "the untouched old bonds, the exact shape of the new atoms / bonds given the migration list (C03_explicitH_shape) and the crash condition "
-                     "(C03_explicitH_crash_iff) are proved",
+                     "_explicit_h: which of several donors / recipients INSIDE one h_pairs group a new H atom joins (first-fit in sorted order) is compared "
+                     "(the wiring multiset is part of the observable) but not characterised by a theorem; proved: every new H joins a donor and a recipient "
+                     "of the same group (C03_explicitH_wiring), usage counts (C03_explicitH_usage / _usage_exact), shape (C03_explicitH_shape), crash "
+                     "condition (C03_explicitH_crash_iff)",
                      "matching itself (SubgraphSearchEngine, orbit de-duplication): C06 / C05"]
 
 HAND = [
@@ -661,7 +664,7 @@ def gen_cases(tier, rng):
     return prepare_all(cases)
 
 
-LEVEL_TEXT = ("Machine-checked proof (Coq, 26 theorems, all closed under the global context) over an executable model of gluing a rule onto a "
+LEVEL_TEXT = ("Machine-checked proof (Coq, 31 theorems, all closed under the global context) over an executable model of gluing a rule onto a "
               "substrate along a match (SynReactor._glue_graph/_node_glue), _invert_template, _explicit_h, h_to_explicit and SynRule.__init__ "
               "(implicit-template mode; default mode for templates without explicit hydrogen atoms): for EVERY substrate graph, rule graph and valid match (boolean hypotheses wf_hostb, wf_rcb, match_rcb) "
               "(a) the reactant molecule graph of the glued ITS is the substrate (same atoms in the same order, same bonds), (b) every element "
@@ -672,7 +675,11 @@ LEVEL_TEXT = ("Machine-checked proof (Coq, 26 theorems, all closed under the glo
               "literally, deltas negated); the explicit-hydrogen stage and the hydrogen expansion of the substrate keep all element counts, the "
               "charge and all bonds between substrate atoms (partial: the validity of VF2 re-matches is a premise). The model is tied to the Python "
               "code by comparing every intermediate graph (before RDKit serialisation) on corpus, hand-made and synthetic (template, substrate) "
-              "pairs on every run, forward/backward, strategies all/comp/bt, three hydrogen modes.")
+              "pairs on every run, forward/backward, strategies all/comp/bt, three hydrogen modes, including rules that move several hydrogens "
+              "(independent transfers, several between the same two atoms, mixed) on substrates rewritten in PRNG-chosen atom orders; the observable "
+              "includes the donor->recipient wiring of every re-materialised hydrogen, and _explicit_h is proved to wire every new hydrogen between a "
+              "donor and a recipient of the same h_pairs group, each donor giving exactly its surplus. One clause is REFUTED and listed as a known "
+              "finding: an implicit-H template used without implicit_temp=True loses its hydrogen changes.")
 LEVEL_NOTE = ("Trusted: Coq kernel + vm_compute; the hand-written model, the statement vocabulary (proof/C03_Spec.v) and the harness encoders; RDKit "
               "parsing and VF2 matching are oracle inputs (every mapping used is re-validated by the model's match_okb / match_rcb and the theorems' "
               "hypotheses are recomputed on every case). Modelled and compared but NOT proved: default-mode rule preparation (_strip_explicit_h), "
